@@ -1329,7 +1329,8 @@ static int cfg_parse_internal(cfg_t *cfg, int level, int force_state, cfg_opt_t 
 		}
 
 		if (tok == EOF) {
-			if (state != 0) {
+			/* a section body (nested parse without forced option) must end with '}' */
+			if (state != 0 || (level > 0 && force_state == -1 && !force_opt)) {
 				cfg_error(cfg, _("premature end of file"));
 				goto error;
 			}
